@@ -55,8 +55,10 @@ def replay(hist: List[Dict[str, Any]], prekind: str) -> Dict[str, Any]:
     prio: Dict[int, int] = {}                  # effective priority of registration i
 
     msgs: List[str]
+    saw: Dict[int, Any] = {}                   # what registration i saw when it ran: (every module analysed, linearisations computed)
+    npass = [0]
+    from pydoctor import model
     if prekind == "system":
-        from pydoctor import model
         system = model.System()
         pp = system._post_processor
         pre = [(k[0], f) for k, f in pp._post_processors]
@@ -72,12 +74,20 @@ def replay(hist: List[Dict[str, Any]], prekind: str) -> Dict[str, Any]:
             msgs.append(m)
         system.msg = rec  # type: ignore[method-assign]
         registrar = extensions.ExtRegistrar(system)
+        builder = system.systemBuilder(system)
+        builder.addModuleString("class A: pass\nclass B(A): pass\n", "ppm")
+        built = [False]
 
         def add(fn: Callable[[Any], None], p: Any) -> None:
             registrar.register_post_processor(fn, priority=p)
 
         def run_pass() -> None:
-            system.postProcess()
+            # the first pass is the one the pipeline itself starts when the last module is analysed
+            if built[0]:
+                system.postProcess()
+            else:
+                built[0] = True
+                builder.buildModules()
         del orig
     else:
         fake = _FakeSystem()
@@ -96,6 +106,10 @@ def replay(hist: List[Dict[str, Any]], prekind: str) -> Dict[str, Any]:
 
         def fn(_system: Any) -> None:
             ran.append(me)
+            if prekind == "system":
+                mods = [o for o in _system.allobjects.values() if isinstance(o, model.Module)]
+                cls = _system.allobjects.get("ppm.B")
+                saw[me] = (bool(mods) and all(m.state is model.ProcessingState.PROCESSED for m in mods), cls is not None and cls._mro is not None)
             if q:
                 register(0 if q == 1 else q, 0)
         fns.append(fn)
@@ -110,7 +124,9 @@ def replay(hist: List[Dict[str, Any]], prekind: str) -> Dict[str, Any]:
                 continue
             del ran[:]
             del msgs[:]
+            saw.clear()
             seen = len(fns)
+            npass[0] += 1
             run_pass()
         except Exception as e:
             bad.append({"invariant": "NoUncaughtException", "step": k, "exception": f"{type(e).__name__}: {e}", "traceback": traceback.format_exc()[-600:]})
@@ -119,6 +135,16 @@ def replay(hist: List[Dict[str, Any]], prekind: str) -> Dict[str, Any]:
         order = [fns.index(f) + 1 if f in fns else -1 for f in pp.applied]
         ours = [i for i in order if i > (2 if prekind == "system" else 0)]
         warned = any("multiple post-processing pass" in m for m in msgs)
+        if prekind == "system" and sorted(order) == list(range(1, seen + 1)):
+            # what a callable may rely on: every module is analysed; the linearisations are there exactly when the default pass
+            # (registration 1, priority 200) ran before it - in this pass or in an earlier one
+            for i in ours:
+                want_mro = npass[0] > 1 or order.index(1) < order.index(i)
+                if i in saw and not saw[i][0]:
+                    bad.append({"invariant": "RunsAfterTheLastModule", "step": k, "registration": i})
+                elif i in saw and saw[i][1] != want_mro:
+                    bad.append({"invariant": "DefaultPassBeforeLowerPriorities", "step": k, "registration": i, "priority": prio[i],
+                                "linearisation_seen": saw[i][1], "order": order})
         if ours != ran:
             bad.append({"invariant": "AppliedListIsWhatRan", "step": k, "applied": order, "ran": list(ran)})
         # the clauses on what was observed
